@@ -19,6 +19,15 @@ sys.path.insert(0, str(VERIF))
 from harness import tlc as _tlc  # noqa: E402
 
 
+def _now() -> float:
+    """Wall clock that the frozen calendar (freezegun) cannot touch."""
+    try:
+        import freezegun.api as fa
+        return fa.real_perf_counter()
+    except Exception:  # noqa: BLE001
+        return time.perf_counter()
+
+
 class MachineryError(Exception):
     pass
 
@@ -26,7 +35,7 @@ class MachineryError(Exception):
 class Ctx:
     def __init__(self, pid: str, tier: str, seed: int, level: str):
         self.pid, self.tier, self.seed, self.level = pid, tier, seed, level
-        self.t0 = time.time()
+        self.t0 = _now()
         self.coverage: dict = {"samples": []}
         self.assumptions: list[str] = []
         self.violations: list[dict] = []
@@ -97,7 +106,7 @@ class Ctx:
         ev = {
             "property_id": self.pid, "tier": self.tier, "seed": self.seed, "level": self.level,
             "coverage": cov, "assumptions": self.assumptions,
-            "wall_s": round(time.time() - self.t0, 2),
+            "wall_s": round(_now() - self.t0, 2),
             "violations": len(self.violations),
             "known_findings_hit": self.known_hits, "notes": self.notes,
         }
